@@ -22,9 +22,9 @@ macro_rules! root_mp {
     ($name:ident, $which:expr) => {
         #[kani::proof]
         #[kani::unwind(34)]
-        #[kani::stub(<BigUint as Roots>::nth_root, uroot_model)]
-        #[kani::stub(<BigUint as Roots>::sqrt, usqrt_model)]
-        #[kani::stub(<BigUint as Roots>::cbrt, ucbrt_model)]
+        #[kani::stub(<crate::biguint::BigUint as num_integer::Roots>::nth_root, uroot_model)]
+        #[kani::stub(<crate::biguint::BigUint as num_integer::Roots>::sqrt, usqrt_model)]
+        #[kani::stub(<crate::biguint::BigUint as num_integer::Roots>::cbrt, ucbrt_model)]
         fn $name() {
             let a0: [u64; 2] = vc::any_canon::<2>();
             let x = mkint(true, &a0);
@@ -45,9 +45,9 @@ macro_rules! root_mp {
 }
 #[kani::proof]
 #[kani::unwind(34)]
-#[kani::stub(<BigUint as Roots>::nth_root, uroot_model)]
-#[kani::stub(<BigUint as Roots>::sqrt, usqrt_model)]
-#[kani::stub(<BigUint as Roots>::cbrt, ucbrt_model)]
+#[kani::stub(<crate::biguint::BigUint as num_integer::Roots>::nth_root, uroot_model)]
+#[kani::stub(<crate::biguint::BigUint as num_integer::Roots>::sqrt, usqrt_model)]
+#[kani::stub(<crate::biguint::BigUint as num_integer::Roots>::cbrt, ucbrt_model)]
 fn c14_q_roots_return_with_sign() {
     let a0: [u64; 1] = vc::any_canon::<1>();
     let neg: bool = kani::any();
@@ -69,7 +69,7 @@ fn umul_any<'a, 'b>(a: &'a BigUint, b: &'b BigUint) -> BigUint where 'a: 'a, 'b:
 }
 #[kani::proof]
 #[kani::unwind(34)]
-#[kani::stub(<&BigUint as core::ops::Mul<&BigUint>>::mul, umul_any)]
+#[kani::stub(<&crate::biguint::BigUint as core::ops::Mul<&crate::biguint::BigUint>>::mul, umul_any)]
 #[kani::stub(core::arch::x86_64::_addcarry_u64, vc::stub_addcarry)]
 #[kani::stub(core::arch::x86_64::_subborrow_u64, vc::stub_subborrow)]
 #[kani::stub(crate::biguint::addition::schoolbook_add_assign_x86_64, vc::model_add)]
